@@ -52,3 +52,15 @@ for _p, _lvl, _fn in [
     ("C17", "translation_validation", ["Descriptor::into_plan", "into_plan_mall", "Assets as AssetProvider", "Miniscript::build_template(_mall)"]),
 ]:
     PROPS[_p] = {"level": _lvl, "trusted_base": _VM_TB, "functions": _fn, "bounds": _W_BOUNDS, "outside": _W_OUT, "assumptions": _W_ASSUME}
+
+PROPS["C18"] = {
+    "level": "translation_validation",
+    "trusted_base": COMMON_TB + ["/verif/harness/src/gen/c18.rs: policy enumeration, atom-array conversion, native brute-force search for existential witnesses", "/verif/harness/src/c18.rs: truth-table evaluator"],
+    "functions": ["Semantic::normalized", "Semantic::sorted", "Semantic::at_age", "Semantic::at_lock_time", "Semantic::entails", "Semantic::minimum_n_keys", "Concrete::lift", "Concrete::check_timelocks", "TimelockInfo::combine_threshold / combine_and / combine_or (symbolically, whole domain)"],
+    "bounds": {"quick": "policies: all leaves, all 1-level thresholds over 12 leaves (n=2), 500 hash-selected n=3 thresholds, 500 two-level policies, hand-picked flattening / constant / repeated-atom shapes; <= 9 nodes, <= 12 atoms; every assignment to the atoms (symbolic); ages / lock times at each lock value, +-1 and in the other unit",
+               "thorough": "as quick with 3000 + 3000 seed-selected policies"},
+    "outside": ["policies above the bound", "entails() returning None (size cap)", "minimum_n_keys on policies with repeated keys (the library counts occurrences)", "hash kinds other than sha256"],
+    "assumptions": ["the transformations ran NATIVELY from the current tree; the solver decided the truth-table statements about their outputs (translation validation)",
+                    "atoms are independent booleans for normalized/sorted/entails/minimum_n_keys/lift; at_age/at_lock_time are compared with the input policy in which the locks not implied by the given age/time are replaced by 'unsatisfiable'",
+                    "existential claims (entails = no, minimum reached, time-lock conflict exists) are checked on a witness found natively by exhaustive search over the atoms"],
+}
